@@ -33,8 +33,9 @@ def run(ctx):
         "T5 (the trees and diagnostics the parser builds satisfy the range checker for EVERY token list) is proved for the parser MODEL under the guard "
         "`lexicalB` (every token start <= end, member-access operators non-empty, starts in order, ends before the next start except for string literals and "
         "comments; checked here on every case that comes from the real lexer, which DOES produce empty ranges ('' and a comment `;` at a line end) and ranges "
-        "reaching over the following tokens (byte length of multi-byte literals)); without the non-empty `.` it is false of model and implementation alike (witness `zeroWidthDot`, replayed); that the line/column "
-        "ranges of the REAL lexer's tokens satisfy the guard for every text is evaluated, not proved",
+        "and, before the repair of the end columns, ranges reaching over the following tokens (byte length of multi-byte literals)); without the non-empty `.` it is false of model and implementation alike (witness `zeroWidthDot`, replayed); that the line/column "
+        "ranges of the lexer's tokens satisfy the guard for EVERY text is now proved for the lexer MODEL (Props/C08Text: lex_tight / lex_lexical / t5_text — even without the exception for literals and comments) "
+        "and evaluated on the real lexer's tokens here (both the guard and the exception-free `Tight`); M-LEX is tied to the real lexer by the C05 correspondence, which compares end columns",
         "definition links and hierarchy items copy node ranges (SymbolInfo.range / selection_range) of ANOTHER document: checked on the real ProjectManager over generated workspaces (harness modes `scope` and `tree`): start <= end, selection inside range, lines exist in the document the uri names",
         "'lines that exist': for token-level cases the document is taken to have as many lines as the last token's line",
     ]
@@ -42,6 +43,7 @@ def run(ctx):
         return replay(ctx)
     ctx.prove("GoldModel.Props.C08")
     ctx.prove("GoldModel.Props.C08T5")
+    ctx.prove("GoldModel.Props.C08Text")
     if not ctx.build_harness():
         return ctx.finish(rule=RULE)
     q = ctx.tier == "quick"
@@ -105,7 +107,7 @@ STRICT_KINDS = ("Dot",)    # Gen.opsOf "parse_dot_ops" (E5); cross-checked again
 LOOSE_KINDS = ("StringLiteral", "Comment")    # Gold.C08.looseKinds: ranges that may reach over the following tokens (byte length of the value)
 
 
-def lexical(line):
+def lexical(line, loose=None):
     """the guard of Gold.C08.t5_partial (`lexicalB`) on a case line: every token start <= end (start < end for the member-access
     operators), starts no later than the next starts and - string literals and comments apart - ends no later than the next starts;
     no token ends on a line after the one on which the last token ends"""
@@ -118,7 +120,7 @@ def lexical(line):
             return False
         if i + 1 < len(toks):
             nxt = toks[i + 1][1]
-            if not s <= nxt or (k not in LOOSE_KINDS and not e <= nxt):
+            if not s <= nxt or (k not in (LOOSE_KINDS if loose is None else loose) and not e <= nxt):
                 return False
         if e[0] > toks[-1][2][0]:
             return False
@@ -135,6 +137,7 @@ def guard_tie(ctx, lines, labels):
     n_ok = 0
     n_empty = 0
     bad = []
+    loose_bad = []
     for l, lab in zip(lines, labels):
         if lab in ("fixture", "text"):
             n_empty += sum(1 for w in l.split(" ")[1:] if w.split(":")[2:4] == w.split(":")[4:6])
@@ -142,10 +145,14 @@ def guard_tie(ctx, lines, labels):
         n_ok += ok
         if not ok and lab in ("fixture", "text"):
             bad.append(l)
+        if lab in ("fixture", "text") and not lexical(l, loose=()):
+            loose_bad.append(l)
     ctx.count("cases satisfying the guard of t5_partial (lexical tokens)", n_ok)
     ctx.count("empty tokens produced by the real lexer (allowed by the guard)", n_empty)
     ctx.oblige("tie:hypothesis:tokens of the real lexer satisfy the guard of t5_partial (start <= end, `.` non-empty, starts in order, ends in order except literals/comments)", not bad,
                "%d cases from the real lexer violate the guard; first: %s" % (len(bad), bad[0][:300] if bad else ""))
+    ctx.oblige("tie:tokens of the real lexer are TIGHT (Gold.C08.lex_tight evaluated on GoldLexer::lex: EVERY token, literals and comments included, ends no later than the next starts)",
+               not loose_bad, "%d cases; first: %s" % (len(loose_bad), loose_bad[0][:300] if loose_bad else ""))
 
 
 def witness_replay(ctx):
